@@ -55,6 +55,8 @@ struct Tracker<K> {
 
 impl<K> Drop for Tracker<K> {
     fn drop(&mut self) {
+        #[cfg(tarpc_verif)]
+        crate::verif::yield_point("cpk_tracker_drop", 0);
         // Don't care if the listener is dropped.
         let _ = self.dropped_keys.send(self.key.take().unwrap());
     }
@@ -205,6 +207,8 @@ where
                         "At open channel limit");
                     Err(key)
                 } else {
+                    #[cfg(tarpc_verif)]
+                    crate::verif::yield_point("cpk_before_upgrade", 0);
                     Ok(o.get().upgrade().unwrap_or_else(|| {
                         let tracker = Arc::new(Tracker {
                             key: Some(key),
@@ -231,8 +235,12 @@ where
 
     fn poll_closed_channels(self: Pin<&mut Self>, cx: &mut Context<'_>) -> Poll<()> {
         let self_ = self.project();
+        #[cfg(tarpc_verif)]
+        crate::verif::yield_point("cpk_before_recv", 0);
         match ready!(self_.dropped_keys.poll_recv(cx)) {
             Some(key) => {
+                #[cfg(tarpc_verif)]
+                crate::verif::yield_point("cpk_before_check", 0);
                 debug!(
                     channel_filter_key = %key,
                     "All channels dropped");
